@@ -282,11 +282,12 @@ fn judge(base: &Base, text: &str) -> Option<String> {
 }
 
 pub fn run(ctx: &mut Ctx) {
-    let thorough = ctx.tier.thorough();
-    // thorough uses the d<=1 programs with the complete respelling menu plus the d<=2 programs with the quick menu
-    let cases = crate::gram::generate(1);
-    ctx.rule = "every C01 program (deviation bound 1) whose canonical text parses x {each keyword occurrence x 3 case variants, all keywords at once, each identifier occurrence x case variants, all identifier occurrences in different cases, each non-glued gap x trivia menu (quick: rotating third; thorough: all 19 members), nothing at the gap where the lexical rules allow it, every gap at once x each member, END_IF with and without ';'}; distinct = distinct respelled text".into();
-    ctx.bounds.insert("deviation_bound".into(), json!(1));
+    // quick = the former thorough tier (deviation bound 1, complete respelling menu); thorough = deviation bound 2
+    let deep = ctx.tier.thorough();
+    let thorough = true;
+    let cases = crate::gram::generate(if deep { 2 } else { 1 });
+    ctx.rule = "every C01 program (deviation bound 1, thorough 2) whose canonical text parses x {each keyword occurrence x 3 case variants, all keywords at once, each identifier occurrence x case variants, all identifier occurrences in different cases, each non-glued gap x trivia menu (all members), nothing at the gap where the lexical rules allow it, every gap at once x each member, END_IF with and without ';'}; distinct = distinct respelled text".into();
+    ctx.bounds.insert("deviation_bound".into(), json!(if deep { 2 } else { 1 }));
     ctx.bounds.insert("trivia_menu".into(), json!(trivia_menu().iter().map(|m| m.0).collect::<Vec<_>>()));
     ctx.assumptions.push("library equality is the repository's own PartialEq (spans compare equal, identifiers compare on lower case) plus equality of the case-folded projection π; verdict = sorted analyze() codes".into());
     ctx.assumptions.push("'nothing at the gap' is only tried where either side is one of ; , ( ) [ ] : or a symbolic operator and the concatenation cannot form another lexeme".into());
@@ -350,8 +351,7 @@ pub fn run(ctx: &mut Ctx) {
 pub fn replay(case: &Value) -> Result<String, String> {
     let id = case["case"].as_str().ok_or("case")?;
     let text = case["respelled_text"].as_str().ok_or("respelled_text")?;
-    let cases = crate::gram::generate(2);
-    let c = cases.iter().find(|c| c.id() == id).ok_or("case id is not in the enumerated space any more")?;
+    let c = &crate::gram::find_case(id).ok_or("case id is not in the enumerated space any more")?;
     let base = base_of(&c.text()).ok_or("canonical text does not parse")?;
     match judge(&base, text) {
         None => Ok("same library and verdict as the canonical spelling".into()),
